@@ -52,17 +52,20 @@
        (C13_hssp_upper_envelope), libstdc++'s insertion sort with the comparator of the code is such an arrangement
        (C13_hssp_sort_instance).  Rational comparisons of the code (intersection abscissae, 1e-10 tolerance) are
        modelled exactly (cross-multiplication): assumption "small integer coordinates" of the check.
+     * the front end HypervolumeCalculator (C13Disp.v: empty -> 0, 2-D sweep, 3-D sweep, HOY for 4 objectives, WFG
+       otherwise) = hv_spec for every number of objectives except 4 (C13_hv_dispatcher_correct; the HOY algorithm is
+       a parameter of the model, C13_hv_dispatcher_correct_given_hoy).
    Modelled, not verified: nonDominatedSort inside limitSet is taken to compute rank_list (proved for
    fastNonDominatedSort: C13_fast_sort; the dispatcher and the DC sort are compared on every run, and the limit set the
    code computes is compared with the model's on every H query).
    NOT PROVED, only compared on every run (tools/c13.py, exact integer arithmetic):
-     * DC sort, the dispatchers, HOY, 3-D/MD contributions, contributions and subset selection WITHOUT reference
+     * DC sort, the sorting / contribution front ends, HOY, 3-D/MD contributions, contributions and subset selection WITHOUT reference
        point: differential test of the C++ against rank_list / hv_spec / contrib_spec (extracted) and against an
        independent Python monitor. *)
 From Coq Require Import List ZArith Permutation Sorted.
 From SharkV Require Import ListAux C13Model C13Proofs C13ProofsFast C13ProofsContrib.
 From SharkV Require Import C13Wfg C13WfgProofs C13Sweep3d C13Sweep3dProofs.
-From SharkV Require Import C13Hssp C13HsspEnvProofs C13HsspProofs C13HsspFrontProofs.
+From SharkV Require Import C13Hssp C13HsspEnvProofs C13HsspProofs C13HsspFrontProofs C13Disp C13DispProofs.
 Import ListNotations.
 
 (* ---- dominance *)
@@ -382,3 +385,23 @@ Theorem C13_hssp_example :
   best_subset_hv 3 [8; 8]%Z [[1; 6]; [2; 4]; [2; 5]; [3; 4]; [5; 1]; [2; 4]; [4; 2]; [1; 7]]%Z = 35%Z.
 Proof. exact hssp2d_example. Qed.
 Print Assumptions C13_hssp_example.
+
+(* ---- front end HypervolumeCalculator.h *)
+Theorem C13_hv_dispatcher_correct :
+  forall hoy ref S, length ref <> 4 -> below_ref ref S -> hv_dispatch hoy ref S = hv_spec ref S.
+Proof. exact hv_dispatch_correct. Qed.
+Print Assumptions C13_hv_dispatcher_correct.
+
+Theorem C13_hv_dispatcher_correct_given_hoy :
+  forall hoy ref S,
+    (forall ref S, length ref = 4 -> below_ref ref S -> hoy ref S = hv_spec ref S) ->
+    below_ref ref S -> hv_dispatch hoy ref S = hv_spec ref S.
+Proof. exact hv_dispatch_correct_all. Qed.
+Print Assumptions C13_hv_dispatcher_correct_given_hoy.
+
+Theorem C13_hv_dispatcher_example :
+  below_ref [3; 3; 3; 3; 3]%Z [[0; 2; 1; 2; 0]; [1; 1; 1; 1; 1]; [2; 0; 2; 0; 2]; [1; 1; 1; 1; 1]]%Z /\
+  hv_dispatch (fun _ _ => 0%Z) [3; 3; 3; 3; 3]%Z [[0; 2; 1; 2; 0]; [1; 1; 1; 1; 1]; [2; 0; 2; 0; 2]; [1; 1; 1; 1; 1]]%Z =
+  hv_spec [3; 3; 3; 3; 3]%Z [[0; 2; 1; 2; 0]; [1; 1; 1; 1; 1]; [2; 0; 2; 0; 2]; [1; 1; 1; 1; 1]]%Z.
+Proof. exact hv_dispatch_example. Qed.
+Print Assumptions C13_hv_dispatcher_example.
